@@ -1083,6 +1083,17 @@ pub fn generate(check: &str, tier: &str, seed: u64) -> Scenario {
                 if r.one_in(2) {
                     steps.push(CStep::Pause(r.range(1, 50_000)));
                 }
+                // some clients hold their connection for seconds or minutes of simulated time
+                // (longer than any plausible queue or idle time-out) while others wait for a slot
+                {
+                    let mut hr = Rng::stream(seed ^ (clients.len() as u64) << 8, "c15-hold");
+                    if hr.one_in(5) {
+                        steps.push(CStep::Pause(*hr.pick(&[2_500_000u64, 10_000_000, 90_000_000])));
+                        tag += 1;
+                        steps.push(CStep::Send(Req::Set(0, Val { tag, len: 8 })));
+                        steps.push(CStep::Await(0));
+                    }
+                }
                 // ending. A client never waits without bound for the server to close: whether a
                 // protocol error, a store error or a half-close ends the connection at once is the
                 // server's choice (it may answer with an error and go on); the client closes itself
@@ -1220,6 +1231,21 @@ pub fn generate(check: &str, tier: &str, seed: u64) -> Scenario {
                     // these runs always have the timed trigger as well
                     if ns.shutdown_us.is_none() {
                         ns.shutdown_us = Some(*lr.pick(&[500u64, 3000, 20_000, 200_000]));
+                    }
+                }
+            }
+            // in a third of the runs the server has been up for a while (seconds to hours of
+            // simulated time) before the clients arrive and the signal fires: nothing about the
+            // shutdown may depend on how long ago the server started
+            {
+                let mut ur = Rng::stream(seed, "c16-uptime");
+                if ur.one_in(3) {
+                    let up = *ur.pick(&[2_000_000u64, 6_000_000, 61_000_000, 3_600_000_000]);
+                    for c in ns.clients.iter_mut() {
+                        c.start_us += up;
+                    }
+                    if let Some(t) = ns.shutdown_us.as_mut() {
+                        *t += up;
                     }
                 }
             }
